@@ -468,7 +468,8 @@ impl Args {
         self.tier() == "thorough"
     }
     pub fn seed(&self) -> u64 {
-        self.get_u64("seed", 1)
+        // --seed-add lets the driver give sharded legs different streams
+        self.get_u64("seed", 1).wrapping_add(self.get_u64("seed-add", 0).wrapping_mul(0x9E37_79B9))
     }
     pub fn leg(&self) -> String {
         self.get_str(
